@@ -37,11 +37,12 @@ POOLS = {
     # label kinds: one letter, hyphen, underscore, leading digit, 63 characters,
     # non-BMP and combining-mark labels (all round-trip through the idna codec)
     "kinds": ["x", "a-b", "a_b", "9lives", "a" * 63, "\U0001F34A", "\u00e9\u0301", "\U00020BB7\u91ce\u5bb6"],
+    "sharp": ["stra\u00dfe", "de", "strasse", "\ufb01nance"],  # case mapping / folding / idna mapping does not round-trip
     "wide": ["a", "b", "c", "d", "e", "f", "g", "h", "i"],
     "deep": ["a", "b"],
 }
-POOL_ORDER = ["ab", "abc", "abcd", "real", "idn", "edge", "digits", "suffixy", "kinds", "wide", "deep"]
-URL_FORMS = ["http", "bare", "port", "schemeless", "auth", "split", "https_q", "auth_noport", "user_only", "upper_scheme", "query_only", "frag_only", "bare_port", "bare_query", "bare_user", "bare_dslash", "bare_q_url"]
+POOL_ORDER = ["ab", "abc", "abcd", "real", "idn", "edge", "digits", "suffixy", "kinds", "sharp", "wide", "deep"]
+URL_FORMS = ["http", "bare", "port", "schemeless", "auth", "split", "https_q", "auth_noport", "user_only", "upper_scheme", "query_only", "frag_only", "bare_port", "bare_query", "bare_user", "bare_dslash", "bare_q_url", "auth_esc"]
 NONSTRING = ["none", "int", "list", "bytes"]
 FAULT_KINDS = ["iter_cancel", "add_raises"]
 
@@ -73,14 +74,32 @@ def puny(label):
     return label.encode("idna").decode("ascii")
 
 
+def case_safe(label):
+    return label.upper().lower() == label
+
+
+def puny_safe(label):
+    try:
+        return puny(label).encode("ascii").decode("idna") == label
+    except UnicodeError:
+        return False
+
+
 def spell_label(label, how):
+    # a spelling is only used when it denotes the same label again: upper-casing
+    # is not reversible for every letter (sharp s, final sigma) and the idna
+    # codec maps some characters (ligatures) before encoding
     if how == "upper":
-        return label.upper()
+        return label.upper() if case_safe(label) else label
     if how == "puny":
-        return puny(label)
+        return puny(label) if puny_safe(label) else label
     if how == "PUNY":
-        return puny(label).upper() if puny(label) != label else label.upper()
+        if not puny_safe(label):
+            return label
+        return puny(label).upper() if puny(label) != label else (label.upper() if case_safe(label) else label)
     if how == "mixed":
+        if not case_safe(label):
+            return label
         return "".join(ch.upper() if i % 2 else ch for i, ch in enumerate(label))
     return label
 
@@ -109,6 +128,8 @@ def render_url(host, form):
         return "ftp://user@%s:21/" % host
     if form == "upper_scheme":
         return "HTTPS://%s/Path" % host
+    if form == "auth_esc":
+        return "http://user:pa%%2Fss%%3F@%s/x" % host
     if form == "bare_q_url":
         return "%s/share?u=https://example.org/page" % host
     if form == "bare_dslash":
@@ -214,7 +235,7 @@ def generate(seed, run, tier):
     if family == "bundled":
         return generate_bundled(crng, srng)
 
-    pool = weighted_choice(crng, [("ab", 30), ("abc", 25), ("abcd", 8), ("real", 12), ("idn", 12), ("edge", 8), ("digits", 5), ("suffixy", 6), ("kinds", 7), ("wide", 5), ("deep", 5)])
+    pool = weighted_choice(crng, [("ab", 30), ("abc", 25), ("abcd", 8), ("real", 12), ("idn", 12), ("edge", 8), ("digits", 5), ("suffixy", 6), ("kinds", 7), ("sharp", 5), ("wide", 5), ("deep", 5)])
     alphabet = POOLS[pool]
     if pool in ("real", "idn", "edge", "digits", "abcd", "suffixy") and crng.random() < 0.5:
         alphabet = alphabet[: crng.choice([3, 4])]
